@@ -37,6 +37,8 @@ FAMILIES = {
     "P3b": fam((3, 3, 3), 3, True, 2, 2, order="fixed"),
     "P3c": fam((3, 3, 3), 3, True, 2, 2),
     "P3x": fam((4, 3, 2), 3, True, 1, 2, order="fixed"),
+    "P3z": fam((2, 4, 2), 3, True, 1, 2, order="fixed"),
+    "P3w": fam((2, 2, 4), 3, True, 1, 2, order="fixed"),
     "P2a": fam((3, 3, 1), 2, True, 1, 3),
     "P2x": fam((4, 2, 1), 2, True, 1, 3),
     "P2b": fam((4, 4, 1), 2, True, 1, 3, order="fixed"),
@@ -405,7 +407,7 @@ def check_C01(tier, seed):
 
 
 def generic_lattice_check(prop, tier, seed, quick_fams, thorough_fams, sim_quick, sim_thorough, own_tags, verdict_props,
-                          rule, profiles=("release",), trace_cells=200):
+                          rule, profiles=("release",), trace_cells=200, with_tess=False):
     out = Outcome(prop, tier, seed)
     fams = quick_fams if tier == "quick" else thorough_fams
     sim = sim_quick if tier == "quick" else sim_thorough
@@ -420,6 +422,11 @@ def generic_lattice_check(prop, tier, seed, quick_fams, thorough_fams, sim_quick
     out.coverage["distinct_nontrivial"] = total_cells
     out.coverage["exhaustive"] = True
     out.assumptions = BASE_ASSUMPTIONS
+    if with_tess:
+        # pipeline F: float inputs (general position, many-faced cells, masks) through the tess recorder + VTessTrace
+        res, verdicts, trace_file = tess_pipeline(tier, seed, prop)
+        apply_tess(out, res, verdicts, trace_file, prop)
+        out.coverage["rule"] += " || pipeline F: " + TESS_RULE
     return out
 
 
@@ -432,7 +439,7 @@ def check_C02(tier, seed):
         {"C02"}, set(),
         "every embedded lattice tessellation (1D/2D/3D, periodic and reflective, anisotropic boxes, offsets up to 1e6, "
         "scales 1e-6..2e14): every cell measure > 0 and the sum equals the box measure; distinct = (input, embedding, cell) "
-        "triples compared, all of them non-trivial (a wrong cell changes the sum)")
+        "triples compared, all of them non-trivial (a wrong cell changes the sum)", with_tess=True)
     return out.finish()
 
 
@@ -445,7 +452,7 @@ def check_C04(tier, seed):
         {"C04"}, set(),
         "every face of every cell of every embedded lattice tessellation: unit normal away from the left generator "
         "(outward through the wall for boundary faces), plane normal = spec normal, centroid on the bisector, closure and "
-        "divergence identities per cell; distinct = (input, embedding, cell) triples")
+        "divergence identities per cell; distinct = (input, embedding, cell) triples", with_tess=True)
     return out.finish()
 
 
@@ -468,8 +475,8 @@ def check_C05(tier, seed):
 def check_C06(tier, seed):
     out = generic_lattice_check(
         "C06", tier, seed,
-        ["P3a", "P3b", "P2a", "P2x", "D1p"],
-        ["P3a", "P3c", "P3x", "P2a", "P2x", "P2b", "D1p"],
+        ["P3a", "P3b", "P3z", "P3w", "P2a", "P2x", "D1p"],
+        ["P3a", "P3c", "P3x", "P3z", "P3w", "P2a", "P2x", "P2b", "D1p"],
         dict(count=40, dims=(1, 2, 3), pers=(True,)), dict(count=600, dims=(1, 2, 3), pers=(True,)),
         {"C06", "C01"}, set(),
         "periodic lattice inputs incl. n = 1, 2 (self-neighbours), all dimensionalities, anisotropic periods: cells equal the "
@@ -501,7 +508,7 @@ def check_C16(tier, seed):
         "safety radius of every replayed cell >= 2 * exact distance (active subspace) to the farthest point TLC computed "
         "and >= distance to every neighbour with a face; every recorded termination validated by VCellTrace (a builder "
         "that stops while a vertex is farther than half the distance to the next candidate is rejected)",
-        trace_cells=600)
+        trace_cells=600, with_tess=True)
     return out.finish()
 
 
@@ -640,8 +647,80 @@ def check_C13(tier, seed):
     return generic_tess_check("C13", tier, seed, "; dump tokens of the two routes, integral lists vs stored values").finish()
 
 
+def check_C09(tier, seed):
+    out = Outcome("C09", tier, seed)
+    # design level: every interleaving of T workers over N cells ends in the one final state
+    runs = [("par3x3", 3, 3, 1, "reciprocal", True, True), ("ring5x3", 5, 3, 1, "ring", True, True)]
+    if tier == "thorough":
+        runs += [("ring6x3", 6, 3, 1, "ring", True, True), ("ring5x4", 5, 4, 1, "ring", True, True), ("par3x3arb", 3, 3, 1, "arbitrary", True, True)]
+    for (name, N, T, K, mode, hm, wf) in runs:
+        r = run_mcvtess(name, N, T, K, mode, hasmask=hm, walls_fixed=wf)
+        if r.violation:
+            raise ToolError("VTess model violates its own invariant (%s): %s" % (name, r.violation))
+        out.coverage["states"] = out.coverage.get("states", 0) + r.distinct
+        out.coverage["transitions"] = out.coverage.get("transitions", 0) + r.states
+        out.coverage.setdefault("models", {})[name] = dict(N=N, T=T, states=r.distinct, transitions=r.states, wall=round(r.wall, 1))
+        log("VTess parallel model %s: %d distinct states (%.1fs)" % (name, r.distinct, r.wall))
+    # implementation: sequential (no rayon) reference vs rayon pools with jitter
+    seqbin = build_harness(features=["ibig"])
+    parbin = build_harness()
+    ref = os.path.join(OUT, "C09_ref.ndjson")
+    par = os.path.join(OUT, "C09_par.ndjson")
+    count = 10 if tier == "quick" else 60
+    reps = 2 if tier == "quick" else 4
+    common = ["--seed", str(seed), "--count", str(count), "--nmax", "60" if tier == "quick" else "150", "--big"]
+    run_harness(seqbin, ["sched", "--mode", "seq", "--out", ref] + common)
+    t0 = time.time()
+    run_harness(parbin, ["sched", "--mode", "par", "--out", par, "--reps", str(reps)] + common, timeout=7200)
+    log("sched recorder: %.1fs" % (time.time() - t0))
+    trace = os.path.join(OUT, "C09_trace.ndjson")
+    orders = {}
+    nruns = 0
+    with open(trace, "w") as f:
+        for p in (ref, par):
+            for line in open(p):
+                f.write(line)
+                o = json.loads(line)
+                if o["e"] == "run":
+                    nruns += 1
+                    if o["traced"]:
+                        ends = tuple(t[1] for t in o["tasks"] if t[0] == "e")
+                        orders.setdefault(o["key"], set()).add(ends)
+    cfg = os.path.join(OUT, "tlc", "vpartrace.cfg")
+    write_cfg(cfg, spec="TSpec", invariants=["Consumed"], postcondition="TraceAccepted")
+    r = run_tlc("trace/VParTrace.tla", cfg, workers=1, dfs=True, env_extra={"VV_TRACE": trace}, tags=("VERDICT",), timeout=3000)
+    if r.violation or not r.ok:
+        raise ToolError("VParTrace could not consume the trace: %s\n%s" % (r.violation or r.error, r.raw_tail[-2000:]))
+    okruns = 0
+    lines = open(trace).read().splitlines()
+    for _, v in r.cases:
+        if v["verdict"] == "ok":
+            okruns += (v["e"] == "run")
+            continue
+        if v["verdict"] == "sequential reference panicked":
+            continue       # a panic is C05's business; the run lines must then panic as well
+        rec = json.loads(lines[v["line"] - 1])
+        rec["tasks"] = rec.get("tasks", [])[:50]
+        out.violation("%s (input/mask %s, %s threads)" % (v["verdict"], v["key"], rec.get("threads")), rec)
+    distinct_orders = sum(len(s) for s in orders.values())
+    out.coverage.update({
+        "traces_validated_against_impl": okruns,
+        "evaluations": nruns,
+        "distinct_nontrivial": distinct_orders,
+        "rule": "runs = (input, mask) x thread pools {1,2,3,4,8,16,64} x repetitions with seeded jitter at the scheduling hook; "
+                "distinct_nontrivial = number of DISTINCT completion orders observed over all traced runs (a run is non-trivial "
+                "when its completion order differs from another run of the same input); each run's token (cells, faces in order, "
+                "connectivity of both routes, all integral vectors incl. _with_data and with_faces) must equal the token of the "
+                "sequential no-rayon build; one 9000-cell periodic input (> 65536 faces) included",
+        "samples": [{"key": k, "distinct_completion_orders": len(v), "example": list(next(iter(v)))[:20]} for k, v in list(orders.items())[:3]],
+    })
+    out.assumptions = ["schedules are sampled (pool sizes x jitter seeds), not enumerated, on the implementation side; the exhaustive part "
+                       "is the TLA+ model of the parallel fragment", "TLC evaluates VParTrace correctly"]
+    return out.finish()
+
+
 CHECKS = {"C01": check_C01, "C02": check_C02, "C04": check_C04, "C05": check_C05, "C06": check_C06,
-          "C08": check_C08, "C16": check_C16, "C03": check_C03, "C07": check_C07, "C12": check_C12, "C13": check_C13}
+          "C08": check_C08, "C16": check_C16, "C03": check_C03, "C07": check_C07, "C12": check_C12, "C13": check_C13, "C09": check_C09}
 
 
 def run_check(pid, tier, seed):
